@@ -5,6 +5,7 @@ import (
 	"fmt"
 	"os"
 	"runtime/debug"
+	"runtime/pprof"
 	"runtime"
 	"strconv"
 	"strings"
@@ -27,6 +28,8 @@ import (
 //
 //go:linkname nextTxsPoolExpire github.com/piotrnar/gocoin/client/txpool.nextTxsPoolExpire
 var nextTxsPoolExpire time.Time
+
+var stopProfile func()
 
 type profile struct {
 	idx        int
@@ -87,6 +90,9 @@ type hist struct {
 	stopped bool
 	poisonOn bool
 
+	utxo   refchain.UTXO // the node's UTXO dump, refreshed after every delivered block
+	utxoTx map[Hash]bool
+
 	lastDeliver     string // why the last delivery made node and reference disagree ("" = they agree)
 	lastNode        string // the node's verdict on the last delivered block
 	pendingFindings []finding
@@ -129,6 +135,13 @@ func childMain(args []string) {
 	}
 	chainsim.QuietStdout()
 
+	if pf := os.Getenv("C12_CPUPROFILE"); pf != "" { // tuning aid
+		if f, err := os.Create(pf); err == nil {
+			pprof.StartCPUProfile(f)
+			defer pprof.StopCPUProfile()
+			stopProfile = pprof.StopCPUProfile
+		}
+	}
 	run := vlib.StartChild(ID, seed, tier)
 	h := &hist{run: run, prof: profileOf(idx), steps: steps, base: base,
 		known: map[OP]refchain.Coin{}, gen: map[Hash]*genTx{}, reserved: map[OP]bool{},
@@ -176,6 +189,9 @@ func childMain(args []string) {
 	run.ExportState(base + ".state")
 	os.WriteFile(base+".done", []byte(status), 0o644)
 	os.RemoveAll(base + ".dir")
+	if stopProfile != nil {
+		stopProfile()
+	}
 	os.Exit(0)
 }
 
@@ -362,16 +378,52 @@ func (h *hist) deliver(b *refchain.Block, family string, mustConnect bool) bool 
 		h.lastDeliver = "node " + gr.Stage + "/" + gr.Err + " ref " + rr.Stage + "/" + rr.Reason
 		return false
 	}
-	if d := chainsim.DiffUTXO(h.node.DumpUTXO(), h.ref.Utxo); d != "" {
+	h.refreshUTXO()
+	if d := chainsim.DiffUTXO(h.utxo, h.ref.Utxo); d != "" {
 		h.lastDeliver = "utxo differs: " + d
 		return false
 	}
 	if mustConnect && rr.Stage != "connected" {
-		h.lastDeliver = "reference refused a block the generator built as valid: " + rr.Stage + "/" + rr.Reason
+		h.lastDeliver = "reference refused a block the generator built as valid: " + rr.Stage + "/" + rr.Reason + h.diagnoseBlock(b)
 		return false
 	}
 	h.lastDeliver = ""
 	return true
+}
+
+// diagnoseBlock names the first tx of b that cannot be connected on the reference tip (generator debugging)
+func (h *hist) diagnoseBlock(b *refchain.Block) string {
+	made := map[OP]bool{}
+	gone := map[OP]bool{}
+	for i, t := range b.Txs {
+		id := t.TxID()
+		if i > 0 {
+			for _, in := range t.In {
+				_, conf := h.ref.Utxo[in.Prev]
+				if gone[in.Prev] || (!conf && !made[in.Prev]) {
+					fam := "?"
+					if g := h.gen[id]; g != nil {
+						fam = g.family
+					}
+					return fmt.Sprintf(" [tx #%d %s family=%s input %s:%d spent-in-block=%v]", i, id, fam, in.Prev.Hash, in.Prev.Idx, gone[in.Prev])
+				}
+				gone[in.Prev] = true
+			}
+		}
+		for oi := range t.Out {
+			made[OP{Hash: id, Idx: uint32(oi)}] = true
+		}
+	}
+	return ""
+}
+
+func (h *hist) refreshUTXO() {
+	h.utxo = h.node.DumpUTXO()
+	h.utxoTx = make(map[Hash]bool, len(h.utxo))
+	for op := range h.utxo {
+		h.utxoTx[op.Hash] = true
+	}
+	h.run.Inc("utxo_dumps")
 }
 
 func forkDepth(old, nw *refchain.Node) int {
